@@ -179,12 +179,13 @@ def shard_fn(shard):
     specs, k = shard
     part = core.Part()
     for spec in specs:
-        check_type(spec, part, k)
+        # quick: two bad positions in types up to depth 2, one in depth-3 types; thorough: two everywhere
+        check_type(spec, part, k if (T.depth(spec) <= 2 or core.TIER == 'thorough') else 1)
     return part
 
 
 def bounds(tier):
-    return dict(k=1 if tier == 'quick' else 2, maxdepth=3)
+    return dict(k=2, maxdepth=3)
 
 
 def run(ctx):
@@ -193,11 +194,11 @@ def run(ctx):
     shards = [(types[i:i + 4], b['k']) for i in range(0, len(types), 4)]
     ctx.pmap(shard_fn, shards, name='validate')
     ctx.rule = ('enumeration: every type of the catalogue (all leaf kinds with boundary limits, containers to depth 3) x every '
-                f'candidate = valid value with <= {b["k"]} positions replaced from the bad/boundary catalogue x up to 6 previous '
+                f'candidate = valid value with <= {b["k"]} positions replaced from the bad/boundary catalogue (quick: 1 in depth-3 types) x up to 6 previous '
                 'values x entry points {wire: validate(import_value(x), prev); drv: validate(x, prev); conv: dt(x)}. '
                 'distinct_nontrivial = distinct (type, entry, candidate) triples carrying at least one bad/boundary position; '
                 'states = distinct (type, entry, candidate) triples; transitions = calls into frappy.datatypes')
-    ctx.coverage.update(types=len(types), bound_completed=f'depth<=3, bad positions<={b["k"]}',
+    ctx.coverage.update(types=len(types), bound_completed='depth<=3; bad positions <=2 (quick: <=1 in depth-3 types)',
                         depth_histogram={d: sum(1 for t in types if T.depth(t) == d) for d in (1, 2, 3)})
     ctx.assume('values and limits outside the catalogues are not covered',
                'generalConfig.lazy_number_validation is False (the default)',
